@@ -1,4 +1,4 @@
-\* Model checking of the contract on the intended design (quirk constants FALSE), names in focus: 2 databases x 3 policy names, few durations.  VIEW hides hist and nops.
+\* Model checking of the contract on the intended design (quirk constants FALSE), names in focus: 2 databases x 3 policy names, few durations.  VIEW hides hist.
 SPECIFICATION Spec
 CONSTANTS
   DBs = {"d1", "d2"}
@@ -11,7 +11,7 @@ CONSTANTS
   XDurs = {99, 7}
   XSGDs = {0}
   XReps = {99}
-  UNames = {"-", "autogen", "r2", "r3"}
+  UNames = {"-", "", "autogen", "r2", "r3"}
   UDurs = {99, 3}
   USGDs = {99}
   UFull = FALSE
@@ -24,6 +24,7 @@ CONSTANTS
   DropKeepsDefault = FALSE
   RenameKeepsDefault = FALSE
   HalfYearIsLong = FALSE
+  RenameAcceptsEmpty = FALSE
 INVARIANTS Inv_Names Inv_ShardGroups Inv_Default Inv_Durations Inv_Outcomes
-VIEW View
+VIEW ViewN
 CHECK_DEADLOCK FALSE
